@@ -23,7 +23,7 @@ RULE = ("stream groups: ASA configurations rendered from a description (0..5 `na
         "stream ports: every operator x bounds {0,1,2,3,79,80,81,65533..65537} x tcp/udp, every named service of both tables under every "
         "operator and as either range bound, blanks variants, cross-table names, malformed specs; thorough: full sweep eq/neq/lt/gt "
         "over 1..65535.  Port lists are compared as maximal +1 runs (injective) with the model AND, for every structured case, with the ports the "
-        "spec denotes according to an independent reading in the harness (_expect).  non-trivial = accepted spec; distinct by (operator, argument).")
+        "spec denotes according to an independent reading in the harness (_expect).  non-trivial = accepted spec; distinct by (operator, argument). Group names are drawn from a pool in which names contain one another (G1/G10, WEB/WEB_DMZ/ALL_WEB_DMZ).")
 EXHAUSTIVE = {"quick": False, "thorough": True}
 TRUSTED = [
     "Coq 8.16.1 kernel incl. vm_compute (no native_compute)",
@@ -44,6 +44,7 @@ ASSUMPTIONS = ["configurations are parsed with syntax='asa', factory=True",
 ACL_TAILS = ["extended permit ip any any", "extended deny ip any any log", "extended permit tcp any any eq 80",
              "standard permit 192.0.2.0 255.255.255.0", "remark some words here", "extended permit ip any any log disable"]
 MASKS = ["255.255.255.0", "255.255.0.0", "255.255.255.252", "255.0.0.0", "255.255.255.255", "255.255.255.255", "255.255.255.128"]
+GROUP_NAMES = ["G1", "G10", "G", "WEB", "WEB_DMZ", "ALL_WEB_DMZ", "DB", "XDBX", "INSIDE", "INSIDE_addrs", "srv"]
 NOISE = [["!"], ["hostname fw01"], ["interface Ethernet0/0", " nameif OUTSIDE", " ip address 198.51.100.1 255.255.255.0"],
          ["object-group service SVC1 tcp", " port-object eq 80", " port-object range 1 5"],
          ["object network OBJ1", " host 192.0.2.77"], ["names"], ["object-group protocol P1", " protocol-object tcp"],
@@ -66,7 +67,8 @@ def gen_groups(rng, tier, escalate):
         if aliases and rng.random() < 0.35:
             blocks.append(["name", _ip(rng), rng.choice(aliases), False])            # redefinition: the later line wins
         ng = rng.randint(1, 7)
-        gnames = ["G%d" % k for k in range(ng)]
+        # group names that contain one another (G1/G10, WEB/WEB_DMZ/ALL_WEB_DMZ): identity of a group is its whole name
+        gnames = rng.sample(GROUP_NAMES, ng) if rng.random() < 0.6 else ["G%d" % k for k in range(ng)]
         rank = {}
         groups = []
         for k, g in enumerate(gnames):
